@@ -36,6 +36,10 @@ namespace
     Request request;                      // single request whose first slot is judged
     std::function<Expect(const Probe &)> expect;
     double rel_tol = 1e-9, abs_tol = 1e-9;
+    // a recorded defect of the library: the value it makes the library return at a probe, and the class name used in the signature
+    // when exactly that value comes back (any other wrong value keeps the plain signature)
+    std::function<Expect(const Probe &)> known_wrong;
+    std::string known_class;
   };
 
   // ---------- area features ----------
@@ -388,6 +392,117 @@ namespace
       }
   }
 
+  // ---------- velocity 'uniform raw' of every feature type with every operation on top of an earlier feature ----------
+  // The mantle layer underneath moves with (0.5,-0.25,0.125): three distinct components, so that a component mixed up with
+  // another one, or an operation applied to the wrong incoming value, changes the answer.
+  void add_velocity_cases(std::vector<Case> &out)
+  {
+    const double V[3] = {0.011, -0.022, 0.033}, U[3] = {0.5, -0.25, 0.125};
+    for (unsigned f = 0; f < 6; ++f) for (int sph = 0; sph < 2; ++sph) for (auto &op : std::vector<std::string>{"replace", "add", "subtract"}) for (unsigned k = 0; k < 3; ++k)
+            {
+              if (f >= 4 && sph) continue;   // the line-feature geometry below is cartesian
+              const double s = sph ? 1.0 : 1e5;
+              const char *FN[] = {"continental plate", "oceanic plate", "mantle layer", "plume", "subducting plate", "fault"};
+              Case c; c.family = "velocity/uniform raw on top of a moving layer/" + std::to_string(k);
+              c.label = std::string(FN[f]) + (sph ? ", spherical, " : ", cartesian, ") + op + ", component " + std::to_string(k);
+              c.spherical = sph;
+              const std::string under = "{\"model\":\"mantle layer\",\"name\":\"U\",\"coordinates\":" + pts({{-9*s,-9*s},{9*s,-9*s},{9*s,9*s},{-9*s,9*s}}) + ",\"velocity models\":[{\"model\":\"uniform raw\",\"velocity\":[0.5,-0.25,0.125]}]}";
+              const std::string vm = "\"velocity models\":[{\"model\":\"uniform raw\",\"velocity\":[0.011,-0.022,0.033],\"operation\":\"" + op + "\"}]";
+              std::function<bool(const Probe &)> inside;
+              if (f <= 2)
+                {
+                  c.world = world(globals(sph), {under, area_feature(f, sph, 2e4, vm)});
+                  c.probes = area_probes(sph, 0);
+                  inside = [](const Probe &p) { return p.depth >= 2e4 && p.depth <= FMAX; };
+                }
+              else if (f == 3)
+                {
+                  c.world = world(globals(sph), {under, "{\"model\":\"plume\",\"name\":\"P\",\"coordinates\":[[0,0],[0,0]],\"cross section depths\":[1e5,3e5],\"semi-major axis\":[" + num(2*s) + "," + num(2*s) + "],\"eccentricity\":[0,0],"
+                                                 "\"rotation angles\":[0,0],\"min depth\":1e5,\"max depth\":4e5," + vm + "}"});
+                  for (auto xy : std::vector<std::array<double,2>>{{{0, 0}}, {{0.5, 0}}, {{1.2, 0.4}}, {{-1.5, -0.5}}, {{2.5, 0.3}}, {{0.3, -3.0}}})
+                    for (double d : {5e4, 1e5, 1.5e5, 3e5, 3.5e5, 4.5e5})
+                      c.probes.push_back({xy[0]*s, xy[1]*s, d});
+                  inside = [=](const Probe &p) { return p.depth >= 1e5 && p.depth <= 4e5 && std::hypot(p.x, p.y) < 1.99*s; };
+                }
+              else
+                {
+                  const bool fault = f == 5;
+                  c.world = world(globals(false), {under, std::string("{\"model\":\"") + FN[f] + "\",\"name\":\"F\",\"coordinates\":[[0,-4e5],[0,4e5]],\"dip point\":[5e6,0],\"segments\":[{\"length\":3e5,\"thickness\":[1e5],\"angle\":[90]}]," + vm + "}"});
+                  for (double x : {-9e4, -6e4, -3e4, -1e3, 1e3, 2e4, 4.5e4, 7e4, 1.5e5}) for (double d : {1e4, 1e5, 2.5e5}) for (double y : {0.0, 2.5e5}) c.probes.push_back({x, y, d});
+                  inside = [=](const Probe &p) { return fault ? std::fabs(p.x) <= 5e4 - 1 : (p.x <= -1 && p.x >= -1e5 + 1); };
+                }
+              const double vk = V[k], uk = U[k];
+              c.expect = [=](const Probe &p) { Expect e; e.defined = true; e.value = inside(p) ? apply_op(op, uk, vk) : static_cast<LD>(uk); return e; };
+              if (f <= 3)
+                {
+                  // area features and plumes start from zero instead of the velocity painted so far
+                  c.known_wrong = [=](const Probe &p) { Expect e; e.defined = true; e.value = inside(p) ? apply_op(op, 0.0L, vk) : static_cast<LD>(uk); return e; };
+                  c.known_class = "area-feature-or-plume-starts-from-zero-velocity";
+                }
+              else if (k == 2)
+                {
+                  // slabs and faults take 'x component + 2' as the incoming vertical component
+                  const double u0 = U[0];
+                  c.known_wrong = [=](const Probe &p) { Expect e; e.defined = true; e.value = inside(p) ? apply_op(op, static_cast<LD>(u0) + 2, vk) : static_cast<LD>(uk); return e; };
+                  c.known_class = "slab-or-fault-takes-x-component-plus-2-as-incoming-vertical-component";
+                }
+              c.request = {{{5,0,0}}};
+              c.abs_tol = 1e-15; c.rel_tol = 1e-15;
+              out.push_back(c);
+            }
+  }
+
+  // ---------- area temperature / composition models whose own depth range is a surface (values at points) ----------
+  // The model range is [5e4, 1.5e5] by default and [9e4, 1.2e5] at the interior point Q (either limit, or both, given as a surface).
+  // Probes at Q, where the local range is known exactly.
+  void add_variable_range_cases(std::vector<Case> &out)
+  {
+    for (unsigned f = 0; f < 3; ++f) for (int sph = 0; sph < 2; ++sph) for (unsigned mode = 0; mode < 3; ++mode)
+          {
+            const double s = sph ? 1.0 : 1e5;
+            const P2 Q = {{1.0*s, 0.5*s}};
+            const bool vmin = mode != 2, vmax = mode != 1;      // 0: both surfaces, 1: top surface + constant bottom, 2: constant top + bottom surface
+            const double lo = vmin ? 9e4 : 5e4, hi = vmax ? 1.2e5 : 1.5e5;
+            const std::string rj = std::string(",\"min depth\":") + (vmin ? "[[5e4],[9e4,[" + pt(Q) + "]]]" : "5e4") + ",\"max depth\":" + (vmax ? "[[1.5e5],[1.2e5,[" + pt(Q) + "]]]" : "1.5e5");
+            const char *MN[] = {"top and bottom of the model given at points", "top of the model given at points, bottom constant", "top constant, bottom of the model given at points"};
+            std::vector<Probe> pr;
+            for (double d : {3e4, 6e4, 8.9e4, 9.1e4, 1e5, 1.1e5, 1.19e5, 1.21e5, 1.4e5, 1.6e5}) pr.push_back({Q[0], Q[1], d});
+            auto in_range = [=](const Probe &p) { return p.depth >= lo && p.depth <= hi; };
+            auto add = [&](const std::string &family, const std::string &label, const std::string &models, const Request &rq, std::function<Expect(const Probe &)> e)
+            {
+              Case c; c.family = family; c.label = std::string(AREA[f]) + (sph ? ", spherical, " : ", cartesian, ") + MN[mode] + ": " + label;
+              c.spherical = sph; c.world = world(globals(sph), {area_feature(f, sph, 0, models)});
+              c.probes = pr; c.request = rq; c.expect = e; c.rel_tol = 1e-7; c.abs_tol = 1e-7;
+              out.push_back(c);
+            };
+            add("temperature/uniform/model range given at points", "T=777", "\"temperature models\":[{\"model\":\"uniform\",\"temperature\":777" + rj + "}]", {{{1,0,0}}},
+                [=](const Probe &p) { Expect e; e.defined = true; e.value = in_range(p) ? static_cast<LD>(777) : background(p.depth); return e; });
+            for (double Tt : {300.0, -1.0})
+              add("temperature/linear/model range given at points", "top=" + num(Tt) + " bottom=1600", "\"temperature models\":[{\"model\":\"linear\",\"top temperature\":" + num(Tt) + ",\"bottom temperature\":1600" + rj + "}]", {{{1,0,0}}},
+                  [=](const Probe &p)
+              {
+                Expect e; e.defined = true;
+                if (!in_range(p)) { e.value = background(p.depth); return e; }
+                const LD top = Tt < 0 ? background(lo) : static_cast<LD>(Tt);
+                e.value = top + (static_cast<LD>(p.depth) - lo) * (1600 - top) / (static_cast<LD>(hi) - lo);
+                return e;
+              });
+            if (f == 0)
+              for (double Tt : {293.15, -1.0})
+                add("temperature/chapman/model range given at points", "top=" + num(Tt), "\"temperature models\":[{\"model\":\"chapman\",\"top temperature\":" + num(Tt) + ",\"top heat flux\":0.055,\"thermal conductivity\":2.5,\"heat generation per unit volume\":1e-6" + rj + "}]", {{{1,0,0}}},
+                    [=](const Probe &p)
+                {
+                  Expect e; e.defined = true;
+                  if (!in_range(p)) { e.value = background(p.depth); return e; }
+                  const LD top = Tt < 0 ? background(lo) : static_cast<LD>(Tt), dz = static_cast<LD>(p.depth) - lo;
+                  e.value = top + 0.055L / 2.5L * dz - 1e-6L / 5.0L * dz * dz;
+                  return e;
+                });
+            add("composition/uniform/model range given at points", "composition 1 fraction 0.75", "\"composition models\":[{\"model\":\"uniform\",\"compositions\":[1],\"fractions\":[0.75]" + rj + "}]", {{{2,1,0}}},
+                [=](const Probe &p) { Expect e; e.defined = true; e.value = in_range(p) ? 0.75L : 0.0L; return e; });
+          }
+  }
+
   // ---------- "negative means the global value" for slab models without a closed form: differential oracle ----------
   struct DiffCase { std::string label, world_a, world_b; std::vector<Probe> probes; };
   std::vector<DiffCase> diff_cases()
@@ -419,7 +534,7 @@ namespace
   {
     static std::vector<Case> q, t;
     std::vector<Case> &v = thorough ? t : q;
-    if (v.empty()) { add_area_cases(v, thorough); add_plume_cases(v); add_line_cases(v); }
+    if (v.empty()) { add_area_cases(v, thorough); add_plume_cases(v); add_line_cases(v); add_velocity_cases(v); add_variable_range_cases(v); }
     return v;
   }
 
@@ -446,7 +561,13 @@ namespace
         if (fabsl(e.value - bg) > 1e-6L || c.request[0][0] != 1) { ++applies; ctx.count(c_in); }
         if (!(std::fabs(got - want) <= c.abs_tol + c.rel_tol * std::fabs(want)))
           {
-            ctx.violation("C05/" + c.family, JObj().str("what", "the model does not return its documented expression").str("case", c.label).raw("natural_point_x_y_depth", "[" + num(p.x) + "," + num(p.y) + "," + num(p.depth) + "]")
+            std::string cls;
+            if (c.known_wrong)
+              {
+                const double kw = static_cast<double>(c.known_wrong(p).value);
+                if (std::fabs(got - kw) <= c.abs_tol + c.rel_tol * std::fabs(kw)) cls = "/" + c.known_class;
+              }
+            ctx.violation("C05/" + c.family + cls, JObj().str("what", "the model does not return its documented expression").str("case", c.label).raw("natural_point_x_y_depth", "[" + num(p.x) + "," + num(p.y) + "," + num(p.depth) + "]")
                           .num("expected", want).num("returned", got).num("background_at_that_depth", static_cast<double>(bg)).str("world", c.world).done());
             return;
           }
